@@ -1626,10 +1626,8 @@ impl Fsm {
                 self.tracer.enter_method("externalQueue.dequeue");
                 loop {
                     let externalEventTmp = externalQueue_receiver.lock().unwrap().recv().unwrap();
-                    if externalEventTmp.name.starts_with(EVENT_DONE_INVOKE_PREFIX) {
-                        externalEvent = externalEventTmp;
-                        break;
-                    }
+                    // Remark: "done.invoke" of a child that was cancelled in the meantime is ignored like
+                    // its other events.
                     if let Some(invoke_id) = &externalEventTmp.invoke_id {
                         if caller_invoke_id.ne(invoke_id) {
                             // W3C says:
